@@ -110,20 +110,70 @@ pub fn build_with(flavor: u32, tables: &[(u32, Vec<u8>)], opts: &BuildOpts) -> V
     out
 }
 
+/// Where a collection keeps its table directories relative to the table data (all are valid: offsets in a
+/// collection are relative to the start of the file).
+#[derive(Clone, Copy, Debug, PartialEq, Eq)]
+pub enum TtcLayout {
+    /// header | dir 0 | dir 1 | ... | tables
+    DirsFirst,
+    /// header | dir 0 | tables first used by member 0 | dir 1 | tables first used by member 1 | ...
+    /// (a later member that shares a table points at data stored BEFORE its own directory)
+    Interleaved,
+    /// header | tables | dir 0 | dir 1 | ...
+    TablesFirst,
+}
+
 /// TrueType collection: `members[i]` lists indices into `pool`; shared pool entries are stored once.
 pub fn build_ttc(version: u32, flavors: &[u32], pool: &[(u32, Vec<u8>)], members: &[Vec<usize>]) -> Vec<u8> {
+    build_ttc_layout(version, flavors, pool, members, TtcLayout::DirsFirst)
+}
+
+pub fn build_ttc_layout(version: u32, flavors: &[u32], pool: &[(u32, Vec<u8>)], members: &[Vec<usize>], layout: TtcLayout) -> Vec<u8> {
     let nf = members.len();
     let header_len = 12 + 4 * nf + if version >= 0x0002_0000 { 12 } else { 0 };
-    let mut dir_offsets = Vec::new();
+    let mut dir_offsets = vec![0usize; nf];
+    let mut tab_offsets = vec![usize::MAX; pool.len()];
     let mut pos = header_len;
-    for m in members {
-        dir_offsets.push(pos);
-        pos += 12 + 16 * m.len();
-    }
-    let mut tab_offsets = vec![0usize; pool.len()];
-    for (i, t) in pool.iter().enumerate() {
-        tab_offsets[i] = pos;
-        pos += (t.1.len() + 3) / 4 * 4;
+    let pad = |n: usize| (n + 3) / 4 * 4;
+    match layout {
+        TtcLayout::DirsFirst => {
+            for (k, m) in members.iter().enumerate() {
+                dir_offsets[k] = pos;
+                pos += 12 + 16 * m.len();
+            }
+            for (i, t) in pool.iter().enumerate() {
+                tab_offsets[i] = pos;
+                pos += pad(t.1.len());
+            }
+        }
+        TtcLayout::Interleaved => {
+            for (k, m) in members.iter().enumerate() {
+                dir_offsets[k] = pos;
+                pos += 12 + 16 * m.len();
+                for &i in m {
+                    if tab_offsets[i] == usize::MAX {
+                        tab_offsets[i] = pos;
+                        pos += pad(pool[i].1.len());
+                    }
+                }
+            }
+            for (i, t) in pool.iter().enumerate() {
+                if tab_offsets[i] == usize::MAX {
+                    tab_offsets[i] = pos;
+                    pos += pad(t.1.len());
+                }
+            }
+        }
+        TtcLayout::TablesFirst => {
+            for (i, t) in pool.iter().enumerate() {
+                tab_offsets[i] = pos;
+                pos += pad(t.1.len());
+            }
+            for (k, m) in members.iter().enumerate() {
+                dir_offsets[k] = pos;
+                pos += 12 + 16 * m.len();
+            }
+        }
     }
     let total = pos;
     let mut w = W::new();
@@ -134,17 +184,20 @@ pub fn build_ttc(version: u32, flavors: &[u32], pool: &[(u32, Vec<u8>)], members
     if version >= 0x0002_0000 {
         w.u32(0).u32(0).u32(0);
     }
+    let mut out = w.done();
+    out.resize(total, 0);
     for (k, m) in members.iter().enumerate() {
         let mut idx = m.clone();
         idx.sort_by_key(|&i| pool[i].0);
         let (sr, es, rs) = search_fields(m.len() as u16, 16);
-        w.u32(flavors[k % flavors.len()]).u16(m.len() as u16).u16(sr).u16(es).u16(rs);
+        let mut d = W::new();
+        d.u32(flavors[k % flavors.len()]).u16(m.len() as u16).u16(sr).u16(es).u16(rs);
         for i in idx {
-            w.u32(pool[i].0).u32(checksum(&pool[i].1)).u32(tab_offsets[i] as u32).u32(pool[i].1.len() as u32);
+            d.u32(pool[i].0).u32(checksum(&pool[i].1)).u32(tab_offsets[i] as u32).u32(pool[i].1.len() as u32);
         }
+        let d = d.done();
+        out[dir_offsets[k]..dir_offsets[k] + d.len()].copy_from_slice(&d);
     }
-    let mut out = w.done();
-    out.resize(total, 0);
     for (i, t) in pool.iter().enumerate() {
         out[tab_offsets[i]..tab_offsets[i] + t.1.len()].copy_from_slice(&t.1);
     }
